@@ -107,11 +107,68 @@ def job(j):
     except Exception as e:  # noqa: BLE001
         info["errors"].append({"run": k, "targets": some, "opts": {"extra_data_columns": True}, "error": f"{type(e).__name__}: {str(e)[:160]}"})
     out = tr.judge()
+    # ---- a data column that overrides a rule, also requested as a target next to its descendants: the call may refuse
+    #      loudly, but if it answers, the descendants must have the values they have without that target and the returned
+    #      column must be the supplied one
+    ov = _override_runs(df, date, rnd, base, cols, tid, work, info)
+    if ov is not None:
+        out["bad"] = list(out["bad"]) + ov["bad"]
+        out["stats"]["judged"] += ov["stats"]["judged"]
+        out["tlc_states"] += ov["tlc_states"]
     info["bad"] = out["bad"]
     info["judged"] = out["stats"]["judged"]
     info["tlc_states"] = out["tlc_states"]
     info["ncols"] = len(cols)
     return info
+
+
+def _override_runs(df, date, rnd, base, cols, tid, work, info):
+    import pandas as pd
+
+    fns = gs.env(date)[1]
+    dts = [t for t in gs.default_targets() if t in cols]
+    cands = []
+    for c in rnd.sample(cols, len(cols)):
+        if c not in fns or c in df.columns or c.endswith("_id") or base[c].dtype.kind not in "fib" or not any(a in df.columns for a in gs.arg_names(fns[c])):
+            continue
+        desc = [d for d in gs.descendants_of(date, tuple(df.columns), c) if d != c and d in cols]
+        if len(desc) >= 2:
+            cands.append((c, desc))
+        if len(cands) >= 2:
+            break
+    if not cands:
+        return None
+    tr = runs.RunTrace(work, f"c04o_{tid}")
+    k = 100
+    judged_any = False
+    for ci, (c, desc) in enumerate(cands):
+        tid2 = tid * 10 + ci + 1_000_000          # Trace_Runs starts a new base whenever the tid changes
+        d3 = df.copy()
+        v = base[c].to_numpy()
+        d3[c] = (~v) if v.dtype.kind == "b" else (v + 1 if v.dtype.kind == "i" else v * 0.5 + 1.0)
+        ts = rnd.sample(desc, min(4, len(desc)))
+        try:
+            b2 = gs.compute(d3, date, targets=ts)
+        except Exception as e:  # noqa: BLE001
+            info.setdefault("override_notes", []).append({"col": c, "base_error": f"{type(e).__name__}: {str(e)[:120]}"})
+            continue
+        b2p = pd.concat([b2.reset_index(drop=True), d3.reset_index(drop=True)], axis=1)
+        b2p = b2p.loc[:, ~b2p.columns.duplicated()]
+        tr.base(tid2, b2p, list(b2p.columns), [])
+        judged_any = True
+        for targets in ([ts[0]], [ts[0], c], ts + [c], [c]):
+            k += 1
+            try:
+                res = gs.compute(d3, date, targets=targets)
+            except Exception as e:  # noqa: BLE001
+                # refusing a data column as a target is loud (recorded, not judged)
+                info.setdefault("override_notes", []).append({"col": c, "targets": targets, "refused": f"{type(e).__name__}: {str(e)[:80]}"})
+                continue
+            tr.run(tid2, k, "targets", res, list(res.columns), requested=sorted(set(targets)))
+            info["runs"].append({"run": k, "rel": "targets", "targets": targets, "opts": {"overriding_data_column": c}})
+    if not judged_any:
+        return None
+    return tr.judge()
 
 
 def run(tier):
@@ -186,6 +243,19 @@ def replay(path):
     tr = runs.RunTrace(str(chk.work), "replay")
     tr.base(0, base, list(base.columns), [])
     r = case.get("run") or {}
+    oc = (r.get("opts") or {}).get("overriding_data_column")
+    if oc:
+        # the column oc is supplied as (perturbed) data; the descendants requested without oc are the reference
+        v = base[oc].to_numpy()
+        df = df.copy()
+        df[oc] = (~v) if v.dtype.kind == "b" else (v + 1 if v.dtype.kind == "i" else v * 0.5 + 1.0)
+        ref = gs.compute(df, date, targets=[t for t in r["targets"] if t != oc] or [case["col"]])
+        res = gs.compute(df, date, targets=r["targets"])
+        bad = [c for c in ref.columns if c in res.columns and not np.array_equal(ref[c].to_numpy(), res[c].to_numpy(), equal_nan=True)]
+        if oc in res.columns and not np.array_equal(res[oc].to_numpy(), df[oc].to_numpy()):
+            bad.append(oc)
+        print("bad:", bad)
+        return 1 if bad else 0
     res = gs.compute(df, date, targets=r.get("targets") or [case["col"]], **{k: v for k, v in (r.get("opts") or {}).items() if k != "extra_data_columns"})
     tr.run(0, 1, "same", res, list(res.columns))
     out = tr.judge()
